@@ -155,7 +155,9 @@ func RunPairs(out string, seed int64, n, workers int) (*Summary, error) {
 			defer w.Close()
 			var sites []*Site
 			for _, s := range w.Sites {
-				sites = append(sites, s)
+				if s.Cfg.Prov != "cognito" { // its /sign_in path is not modelled
+					sites = append(sites, s)
+				}
 			}
 			for j := wk; j < n; j += workers {
 				r := rand.New(rand.NewSource(seed*7907 + int64(j)))
